@@ -42,6 +42,8 @@ static inline u32 nondet_u32(void) { return 0; } static inline u64 nondet_u64(vo
 static inline f32 nondet_f32(void) { return 0; } static inline f64 nondet_f64(void) { return 0; } static inline void *nondet_ptr(void) { return 0; }
 #define __CPROVER_assert(c, m) ((void)0)
 #define __CPROVER_assume(c) ((void)0)
+#define __CPROVER_r_ok(p, n) 1
+#define __CPROVER_w_ok(p, n) 1
 #else
 u1 nondet_u1(void); u8 nondet_u8(void); u16 nondet_u16(void); u32 nondet_u32(void); u64 nondet_u64(void); u128 nondet_u128(void);
 f32 nondet_f32(void); f64 nondet_f64(void); void *nondet_ptr(void);
@@ -202,8 +204,15 @@ f32 fmaf(f32, f32, f32); f64 fma(f64, f64, f64); f32 sqrtf(f32); f64 sqrt(f64);
 #ifdef LL_MODE_UF_ADD
 u32 __CPROVER_uninterpreted_fadd32(u32, u32); u64 __CPROVER_uninterpreted_fadd64(u64, u64);
 u32 __CPROVER_uninterpreted_fsub32(u32, u32); u64 __CPROVER_uninterpreted_fsub64(u64, u64);
-static inline f32 FADD_f32(f32 a, f32 b) { u32 x = LL_CANON32(a), y = LL_CANON32(b); return U2F32(x <= y ? __CPROVER_uninterpreted_fadd32(x, y) : __CPROVER_uninterpreted_fadd32(y, x)); }
-static inline f64 FADD_f64(f64 a, f64 b) { u64 x = LL_CANON64(a), y = LL_CANON64(b); return U2F64(x <= y ? __CPROVER_uninterpreted_fadd64(x, y) : __CPROVER_uninterpreted_fadd64(y, x)); }
+/* exact facts of IEEE addition (round to nearest): (+0) + y == y, except (+0) + (-0) == +0 */
+static inline f32 FADD_f32(f32 a, f32 b) { u32 x = LL_CANON32(a), y = LL_CANON32(b);
+  if (x == 0) return U2F32(y == 0x80000000u ? 0u : y);
+  if (y == 0) return U2F32(x == 0x80000000u ? 0u : x);
+  return U2F32(x <= y ? __CPROVER_uninterpreted_fadd32(x, y) : __CPROVER_uninterpreted_fadd32(y, x)); }
+static inline f64 FADD_f64(f64 a, f64 b) { u64 x = LL_CANON64(a), y = LL_CANON64(b);
+  if (x == 0) return U2F64(y == 0x8000000000000000ull ? 0ull : y);
+  if (y == 0) return U2F64(x == 0x8000000000000000ull ? 0ull : x);
+  return U2F64(x <= y ? __CPROVER_uninterpreted_fadd64(x, y) : __CPROVER_uninterpreted_fadd64(y, x)); }
 static inline f32 FSUB_f32(f32 a, f32 b) { return U2F32(__CPROVER_uninterpreted_fsub32(LL_CANON32(a), LL_CANON32(b))); }
 static inline f64 FSUB_f64(f64 a, f64 b) { return U2F64(__CPROVER_uninterpreted_fsub64(LL_CANON64(a), LL_CANON64(b))); }
 #else
